@@ -480,6 +480,23 @@ def runOps (allowLogConfig : Bool) (c : Nat) : Action → List Op → List (OpRe
     let r := runOp allowLogConfig c a op
     (r.1, r.2.rulesApplied) :: runOps allowLogConfig c r.2 ops
 
+/-- The same with a response code PER CALL: what a proxy really does with one action — `get_status_code(0)` at
+request time, then `get_status_code` / `filter_headers` / `create_filter_body` / `should_log_request` with the
+backend's code, all on the same `&mut self` (`rules_applied` accumulates across the codes). -/
+def runOpsC (allowLogConfig : Bool) : Action → List (Op × Nat) → List (OpResult × List RuleId)
+  | _, [] => []
+  | a, (op, c) :: ops =>
+    let r := runOp allowLogConfig c a op
+    (r.1, r.2.rulesApplied) :: runOpsC allowLogConfig r.2 ops
+
+/-- The proxy order (`unit_ids.rs` / `test_examples.rs` / the proxy modules): `s0` = the status returned at request
+time, `s1` = the status returned for the backend's code (only asked when `s0 = 0`). -/
+def proxySequence (s0 s1 backend : Nat) : List (Op × Nat) :=
+  let backend' := if s0 != 0 then s0 else backend
+  let final := if s0 != 0 then s0 else s1
+  [(.status, 0)] ++ (if s0 != 0 then [] else [(.status, backend)]) ++
+    [(.headers, backend'), (.body, backend'), (.log, final)]
+
 /-! ## Part 2 — the specification: closed forms over the sorted matched rules -/
 
 namespace Spec
@@ -645,6 +662,15 @@ def observe (q : Req) (C : List Rule) (allowLogConfig : Bool) (c : Nat) :
     let done' := done ++ insertedBy q C c op
     let applied := dedupLast done'
     (resultOf q C allowLogConfig c applied op, applied) :: observe q C allowLogConfig c done' ops
+
+/-- The same for a response code per call: the ids inserted so far come from calls with different codes. -/
+def observeC (q : Req) (C : List Rule) (allowLogConfig : Bool) :
+    List RuleId → List (Op × Nat) → List (OpResult × List RuleId)
+  | _, [] => []
+  | done, (op, c) :: ops =>
+    let done' := done ++ insertedBy q C c op
+    let applied := dedupLast done'
+    (resultOf q C allowLogConfig c applied op, applied) :: observeC q C allowLogConfig done' ops
 
 /-- An independent sort for the specification: stable insertion sort by `ruleLe`. -/
 def insertRule (r : Rule) : List Rule → List Rule
